@@ -86,6 +86,8 @@ class Node:
         self.t += dt
         if self.deadline is not None and self.t > self.deadline:
             raise VirtualDeadline(self.name)
+        if self.t > self.world.horizon:
+            raise VirtualDeadline(self.name + " (world horizon)")
 
     def interact(self):
         """synchronise with the world before touching shared hardware"""
@@ -166,7 +168,7 @@ class World:
         self.n_events = 0
         self.n_switches = 0
         self.swap_frame_ids = None  # callable(old_node, new_node)
-        self.horizon = None  # absolute virtual time after which nodes are stopped
+        self.horizon = 30 * 1000 * MS  # absolute virtual time at which any node is stopped
 
     # -- events ----------------------------------------------------------
     def at(self, t, fn, *args):
